@@ -421,6 +421,12 @@ func (c *caseRun) aiItem(it item) ai.Item[payloadT] {
 // step runs one mutating op, observes, emits the op line (with oracle inputs), then dump/get/query lines and
 // evaluates the direct oracle.
 func (c *caseRun) upsert(items []item, batch bool, qs *querySpec) error {
+	// count tracking: the centroid the store is about to choose is recomputed BEFORE the op (a rejected commit
+	// leaves non-finite centroid vectors in the process cache, so it cannot be recomputed afterwards)
+	preCid := 0
+	if c.tracking && !batch {
+		preCid = c.closest(items[0])
+	}
 	res, err := c.e.write(func(idx ai.VectorStore[payloadT]) error {
 		if !batch {
 			return idx.Upsert(c.e.ctx, c.aiItem(items[0]))
@@ -455,7 +461,7 @@ func (c *caseRun) upsert(items []item, batch bool, qs *querySpec) error {
 		cid, dist, _ := activeAssign(&o.d, it.id)
 		if res != "ok" {
 			// rolled back: the assignment was never stored; the centroid is recomputed with the store's distance routine
-			cid, dist = c.closest(it), 0
+			cid, dist = preCid, 0
 		}
 		fmt.Fprintf(&sb, " %d %d %d %d %d %d", it.id, it.vec, it.payload, it.ecid, cid, dist)
 	}
